@@ -208,6 +208,170 @@ SETTINGS = [("dt", [0.01, 0.02, 0.005, 0.0137]), ("G", [1.0, 0.5, 2.0]), ("softe
             ("ri_whfast.corrector2", [0, 1]), ("testparticle_hidewarnings", [0, 1])]
 
 
+# ------------------------------------------------------------------------------------------ pairwise covering arrays
+def all_pairs(factors, excluded):
+    """every (f, a, g, b) with f < g in factor order that is not excluded -> set"""
+    names = list(factors)
+    out = set()
+    for i, f in enumerate(names):
+        for g in names[i + 1:]:
+            for a in factors[f]:
+                for b in factors[g]:
+                    if not excluded(f, a, g, b):
+                        out.add((f, a, g, b))
+    return out
+
+
+def row_pairs(row, names):
+    return {(f, row[f], g, row[g]) for i, f in enumerate(names) for g in names[i + 1:]}
+
+
+UNCOVERABLE = {}
+
+
+def covering_array(factors, excluded, rng, ncand=60):
+    """greedy all-pairs: repeatedly pick, among `ncand` random admissible candidates (seeded to contain one
+    uncovered pair), the row covering most uncovered pairs.  A row is admissible when none of its pairs is excluded."""
+    names = list(factors)
+    todo = all_pairs(factors, excluded)
+    rows = []
+    guard = 0
+    while todo and guard < 5000:
+        guard += 1
+        best, bestn = None, -1
+        seed_pair = next(iter(sorted(todo, key=str))) if guard % 2 else rng.choice(sorted(todo, key=str))
+        for _ in range(ncand):
+            row = {f: rng.choice(factors[f]) for f in names}
+            row[seed_pair[0]] = seed_pair[1]
+            row[seed_pair[2]] = seed_pair[3]
+            rp = row_pairs(row, names)
+            if any(excluded(*q) for q in rp):
+                continue
+            n = len(rp & todo)
+            if n > bestn:
+                best, bestn = row, n
+        if best is None or bestn <= 0:
+            todo.discard(seed_pair)         # cannot be completed to an admissible row: reported as uncoverable
+            UNCOVERABLE.setdefault(id(factors), set()).add(seed_pair)
+            rows.append(None)
+            continue
+        rows.append(best)
+        todo -= row_pairs(best, names)
+    return [r for r in rows if r is not None]
+
+
+class PairTracker:
+    """pairs of factor values actually EXECUTED (a skipped op does not count)"""
+    def __init__(self, factors, excluded):
+        self.factors, self.excluded = factors, excluded
+        self.names = list(factors)
+        self.total = all_pairs(factors, excluded)
+        self.seen = set()
+        nall = sum(len(factors[f]) * len(factors[g]) for i, f in enumerate(self.names) for g in self.names[i + 1:])
+        self.nexcluded = nall - len(self.total)
+
+    def add(self, row):
+        have = [f for f in self.names if row.get(f) is not None]
+        for i, f in enumerate(have):
+            for g in have[i + 1:]:
+                q = (f, row[f], g, row[g])
+                if q in self.total:
+                    self.seen.add(q)
+
+    def report(self):
+        unc = UNCOVERABLE.get(id(self.factors), set()) - self.seen
+        missing = sorted(self.total - self.seen - unc, key=str)
+        return {"covered": len(self.seen), "total": len(self.total) - len(unc), "excluded": self.nexcluded,
+                "no_admissible_row": [list(m) for m in sorted(unc, key=str)[:30]],
+                "factors": {f: len(v) for f, v in self.factors.items()}, "missing": [list(m) for m in missing[:25]]}
+
+
+# ------------------------------------------------------------------------------------------ C06 factors
+C06_FACTORS = {
+    "integrator": ["whfast", "ias15", "leapfrog", "sei", "janus", "mercurius", "saba", "eos", "bs", "trace", "none"],
+    "first": ["fresh", "stepped"],                  # lazily allocated arrays absent / present in the first snapshot
+    "cadence": ["manual", "interval", "step", "interval_back", "step_back", "interval_short"],   # interval_short: interval < |dt| (prescribed time lags)
+    "eventA": ["steps", "merge", "switch", "reset", "n_to_zero", "add", "remove", "lrescale", "nothing", "sett_t0",
+               "hash", "callback", "edit", "synchronize", "setting"],
+    "eventB": ["steps", "switch", "reset", "nothing", "add", "n_to_zero", "setting", "remove"],
+    "roles": ["plain", "n_active", "testparticle1", "variational", "massless"],
+    "restore": ["sa[k]", "Simulation(file,k)", "Simulation(sa,k)", "iteration", "c_api"],
+}
+_VAR_OK = ("ias15", "leapfrog", "none")
+_PARTICLE_EVENTS = ("merge", "add", "remove", "n_to_zero")
+
+
+def c06_excluded(f, a, g, b):
+    """combinations the code rejects or that damage memory outside the archive code (listed in notes/C06.md)"""
+    d = {f: a, g: b}
+    integ, roles, cad = d.get("integrator"), d.get("roles"), d.get("cadence")
+    evs = [d[x] for x in ("eventA", "eventB") if x in d]
+    if roles == "variational" and integ is not None and integ not in _VAR_OK:
+        return True          # variational particles: only IAS15 / leapfrog / none handle every configuration (WHFast family overflows p_jh)
+    if roles == "variational" and any(e in _PARTICLE_EVENTS + ("switch",) for e in evs):
+        return True          # real particles must not be added / removed / merged after variational ones; switch may leave the supported set
+    if integ == "bs" and any(e in _PARTICLE_EVENTS for e in evs):
+        return True          # BS keeps ODE buffers sized for the old N (heap overflow in integrator_bs.c, not archive code)
+    if integ in ("bs", "trace", "mercurius") and "merge" in evs:
+        return True
+    if cad in ("interval_back", "step_back") and integ in ("trace",):
+        return True          # TRACE does not support dt < 0 (documented TODO)
+    if cad is not None and cad != "manual" and "merge" in evs:
+        return True          # the merge event steps outside integrate(): cadence lags by construction
+    if any(e == "lrescale" for e in evs) and roles is not None and roles != "variational":
+        return True          # lrescale exists only with a variational configuration
+    if cad is not None and cad != "manual" and d.get("eventA") == "sett_t0":
+        return True          # rewinding t under a time cadence is a lagging run by construction
+    return False
+
+
+def c06_history_from_row(rng, row):
+    """history realising one row of the covering array: first snapshot (after steps or not), event A, snapshot right
+    after it, event B, snapshot right after it; with an automatic cadence the snapshots are the first heartbeats of
+    the next integrate() call (cadence of one step)"""
+    integ = row["integrator"]
+    parts = [gen_particle(rng, star=True), gen_particle(rng), gen_particle(rng), gen_particle(rng)]
+    pre = []
+    if row["roles"] == "n_active":
+        pre += [["set", "N_active", 2]]
+    elif row["roles"] == "testparticle1":
+        pre += [["set", "N_active", 2], ["set", "testparticle_type", 1]]
+    elif row["roles"] == "massless":
+        parts[2]["m"] = 0.0
+        parts[3]["m"] = 0.0
+    init = dict(particles=parts, integrator=integ, dt=0.01)
+    if integ in ("mercurius", "trace") and row["first"] == "stepped":
+        parts[1] = dict(m=1e-3, x=1.0, y=0.0, z=0.0, vx=0.0, vy=1.0, vz=0.0, r=0.0)
+        parts[2] = dict(m=1e-3 if row["roles"] != "massless" else 0.0, x=1.02, y=0.0, z=0.0, vx=0.0, vy=0.98, vz=0.0, r=0.0)
+    other = "leapfrog" if integ != "leapfrog" else "whfast"
+    if row["roles"] == "variational":
+        other = "ias15" if integ != "ias15" else "leapfrog"
+
+    def ev(name):
+        return {"steps": [["steps", 2]], "merge": [["merge"]], "switch": [["integrator", other]], "reset": [["reset"]],
+                "n_to_zero": [["remove_all"]], "add": [["add", gen_particle(rng)]], "remove": [["remove", 1]],
+                "lrescale": [["lrescale", -1.0]], "nothing": [], "sett_t0": [["sett", "t0"]], "hash": [["hash", 1, 77001]],
+                "callback": [["callback", "additional_forces"]], "edit": [["edit", 1, "x", 0.321]], "synchronize": [["synchronize"]],
+                "setting": [["set", "G", 0.75]]}[name]
+    ops = list(pre)
+    if row["first"] == "stepped":
+        ops += [["steps", 3]]
+    if row["roles"] == "variational":
+        ops += [["variation", 1], ["varinit", 0.25]]
+    cad = row["cadence"]
+    if cad == "manual":
+        ops += [["snap"]] + ev(row["eventA"]) + [["snap"]] + ev(row["eventB"]) + [["snap"], ["steps", 1], ["snap"]]
+    else:
+        sgn = -1 if cad.endswith("_back") else 1
+        ops += [["auto_interval", 0.004 if cad == "interval_short" else 0.01] if cad.startswith("interval") else ["auto_step", 1]]
+        seg = lambda: [["integrate", sgn * 0.01 * 2.5, 0]]
+        a = ev(row["eventA"]) if row["eventA"] != "steps" else seg()
+        b = ev(row["eventB"]) if row["eventB"] != "steps" else seg()
+        ops += seg() + a + seg() + b + seg() + [["snap"]]
+    return dict(init=init, ops=ops, structural="pairwise", auto=(None if cad == "manual" else ("interval" if cad.startswith("interval") else "step")),
+                tag=None, row=row, restore=row["restore"])
+
+
 def gen_particle(rng, star=False):
     if star:
         return dict(m=1.0, x=0.0, y=0.0, z=0.0, vx=0.0, vy=0.0, vz=0.0, r=0.0)
@@ -810,8 +974,18 @@ def run_history(rebound, hist, wd, load_back=True, keep_copies=False):
             back["offset"] = [int(sa.offset[i]) for i in range(nb)]
             back["eq"] = []
             back["vals"] = []
+            restore = hist.get("restore") or "sa[k]"
+            back["restore"] = restore
+            it = iter(sa) if restore == "iteration" else None
             for k in range(nb):
-                s = sa[k]
+                if restore == "Simulation(file,k)":
+                    s = rebound.Simulation(fn, snapshot=k)
+                elif restore == "Simulation(sa,k)":
+                    s = rebound.Simulation(sa, snapshot=k)
+                elif restore == "iteration":
+                    s = next(it)
+                else:
+                    s = sa[k]
                 back["vals"].append(live_values(s))
                 lp = os.path.join(wd, "l%d.bin" % k)
                 if os.path.exists(lp):
